@@ -571,4 +571,22 @@ def g_tables(repo):
     return g
 
 
-GROUPS = {'ceq': g_ceq, 'conv': g_conv, 'expect': g_expect, 'opmatch': g_opmatch, 'cnf': g_cnf, 'failed': g_failed, 'structured': g_structured, 'validate_data': g_validate_data, 'memo': g_memo, 'memo_block': g_memo_block, 'compare': g_compare, 'tables': g_tables, 'index2': g_index2, 'index': g_index, 'tracker': g_tracker, 'validate': g_validate, 'eval_blocks': g_eval_blocks, 'report': g_report, 'merge': g_merge, 'status': g_status, 'exit': g_exit, 'eval': g_eval, 'eval_disp': g_eval_disp}
+def g_cfnrep(repo):
+    """R16 fragment (C08): the expression of the CloudFormation-aware console reporter (cfn.rs, ErrWriter::emit_code) that
+    computes the first source line of the code excerpt shown for a failed check"""
+    g = GroupBuild('cfnrep', repo)
+    g.raw('prelude_common.rs')
+    g.text('''#[verifier::external_body]
+fn max(a: usize, b: usize) -> (r: usize)
+    ensures r == (if a >= b { a } else { b })
+{ std::cmp::max(a, b) }
+''', 'std::cmp::max on usize: ASSUMED to return the larger argument (local stub shadowing the std import; std::cmp::max is generic over Ord and has no Verus spec)')
+    g.fragment('U-excerpt', CMD + 'reporters/validate/cfn.rs', 'emit_code', r"^impl<'w, 'b> ErrWriter<'w, 'b>", r'max\(\s*1\s*,[^;{]*?\)(?=\s*\)\s*\{)', 0,
+               ('line: usize', 'usize'), 'first',
+               '    ensures\n        1 <= res,\n        res <= (if line >= 1 { line } else { 1 }),\n',
+               'the argument of `seek_line` in ErrWriter::emit_code: the first line of the code excerpt printed for a failed check; `line` is the source line of the value (any usize: 0 for values without a location, 1 for single-line documents)',
+               props=['C08'], pre='let first =')
+    return g
+
+
+GROUPS = {'cfnrep': g_cfnrep, 'ceq': g_ceq, 'conv': g_conv, 'expect': g_expect, 'opmatch': g_opmatch, 'cnf': g_cnf, 'failed': g_failed, 'structured': g_structured, 'validate_data': g_validate_data, 'memo': g_memo, 'memo_block': g_memo_block, 'compare': g_compare, 'tables': g_tables, 'index2': g_index2, 'index': g_index, 'tracker': g_tracker, 'validate': g_validate, 'eval_blocks': g_eval_blocks, 'report': g_report, 'merge': g_merge, 'status': g_status, 'exit': g_exit, 'eval': g_eval, 'eval_disp': g_eval_disp}
